@@ -195,6 +195,8 @@ def c13_5(ctx):
         ctx.undecided("split-through-split_with_remainder", ctx.where(dsp), "distribute_from_split_pool writes no coin_value")
     elif uses_split:
         ctx.ok("split-through-split_with_remainder", sample={"writes": len(cw), "amounts_from": "split_with_remainder(..)"})
+    elif (ctx.p.module(TU).name + ".split_with_remainder") not in ctx.p.functions:
+        ctx.undecided("split-through-split_with_remainder", ctx.where(dsp), "split_with_remainder is no longer a function of tx_utils (inlined or moved): where the shares come from is not read here")
     else:
         own = [e for e in cw if any(isinstance(x, ast.BinOp) and isinstance(x.op, (ast.FloorDiv, ast.Mod, ast.Add)) for x in ast.walk(e.value)) or "divmod(" in norm(e.value)]
         if own:
